@@ -135,6 +135,204 @@ fn norm(v: &Value) -> Value {
     }
 }
 
+
+// ---- an independent reader for Zinc, written from the Project Haystack grammar (not from libhaystack's decoder): used by
+//      enum:zinc-reference to decide whether what the writer emits is a sentence of the grammar that denotes the value.  Liberal about
+//      optional spaces, strict about structure (brackets, separators, quotes, parentheses, line structure of grids).
+mod refzinc {
+    use libhaystack::val::{Column, Date, DateTime, Dict, Grid, Time, Value};
+    pub struct P<'a> { pub s: &'a [char], pub i: usize }
+    type R<T> = Result<T, String>;
+    impl<'a> P<'a> {
+        fn peek(&self) -> Option<char> { self.s.get(self.i).copied() }
+        fn at(&self, k: usize) -> Option<char> { self.s.get(self.i + k).copied() }
+        fn eat(&mut self, c: char) -> bool { if self.peek() == Some(c) { self.i += 1; true } else { false } }
+        fn expect(&mut self, c: char) -> R<()> { if self.eat(c) { Ok(()) } else { Err(format!("expected {c:?} at {} found {:?}", self.i, self.peek())) } }
+        fn spaces(&mut self) { while self.peek() == Some(' ') || self.peek() == Some('\t') { self.i += 1; } }
+        fn nl(&mut self) -> bool { if self.peek() == Some('\r') && self.at(1) == Some('\n') { self.i += 2; true } else { self.eat('\n') } }
+        fn id(&mut self) -> R<String> {
+            let st = self.i;
+            match self.peek() { Some(c) if c.is_ascii_lowercase() => self.i += 1, other => return Err(format!("identifier expected at {st}, found {other:?}")) }
+            while matches!(self.peek(), Some(c) if c.is_ascii_alphanumeric() || c == '_') { self.i += 1; }
+            Ok(self.s[st..self.i].iter().collect())
+        }
+        fn hex4(&mut self) -> R<u32> {
+            let mut v = 0u32;
+            for _ in 0..4 { let c = self.peek().ok_or("eof in \\u")?; v = v * 16 + c.to_digit(16).ok_or(format!("bad hex digit {c:?}"))?; self.i += 1; }
+            Ok(v)
+        }
+        fn quoted(&mut self, q: char, uri: bool) -> R<String> {
+            self.expect(q)?;
+            let mut out = String::new();
+            loop {
+                let c = self.peek().ok_or("unterminated literal")?;
+                self.i += 1;
+                if c == q { return Ok(out); }
+                if c == '\n' { return Err("newline in literal".into()); }
+                if c == '\\' {
+                    let e = self.peek().ok_or("eof after backslash")?; self.i += 1;
+                    match e {
+                        'u' => { let v = self.hex4()?; out.push(char::from_u32(v).unwrap_or('\u{fffd}')); }
+                        'b' if !uri => out.push('\u{8}'), 'f' if !uri => out.push('\u{c}'), 'n' if !uri => out.push('\n'), 'r' if !uri => out.push('\r'),
+                        't' if !uri => out.push('\t'), '"' if !uri => out.push('"'), '$' if !uri => out.push('$'), '\\' => out.push('\\'),
+                        ':' | '/' | '?' | '#' if uri => { out.push('\\'); out.push(e); }
+                        '[' | ']' | '@' | '`' | '&' | '=' | ';' if uri => out.push(e),
+                        other => return Err(format!("illegal escape \\{other}")),
+                    }
+                } else { out.push(c); }
+            }
+        }
+        fn refchars(&mut self) -> String {
+            let st = self.i;
+            while matches!(self.peek(), Some(c) if c.is_ascii_alphanumeric() || "_:-.~".contains(c)) { self.i += 1; }
+            self.s[st..self.i].iter().collect()
+        }
+        fn digits(&mut self) -> usize { let st = self.i; while matches!(self.peek(), Some(c) if c.is_ascii_digit()) { self.i += 1; } self.i - st }
+        fn number_like(&mut self) -> R<Value> {
+            let st = self.i;
+            // date / time / datetime start with digits in fixed positions
+            let txt = |p: &P, a: usize, b: usize| -> String { p.s[a..b].iter().collect() };
+            let dig = |p: &P, k: usize| matches!(p.s.get(st + k), Some(c) if c.is_ascii_digit());
+            if dig(self, 0) && dig(self, 1) && dig(self, 2) && dig(self, 3) && self.s.get(st + 4) == Some(&'-') && dig(self, 5) && dig(self, 6) && self.s.get(st + 7) == Some(&'-') && dig(self, 8) && dig(self, 9) {
+                self.i = st + 10;
+                if self.peek() == Some('T') {
+                    self.i += 1;
+                    if !(self.digits() == 2 && self.eat(':') && self.digits() == 2 && self.eat(':') && self.digits() == 2) { return Err("bad time of day in timestamp".into()); }
+                    if self.eat('.') && self.digits() == 0 { return Err("empty fraction".into()); }
+                    if self.eat('Z') {
+                        let iso = txt(self, st, self.i);
+                        // Z alone is UTC; Z followed by a space and a zone name is that zone at offset zero
+                        if self.peek() == Some(' ') && matches!(self.at(1), Some(c) if c.is_ascii_uppercase()) {
+                            self.i += 1; let zs = self.i;
+                            while matches!(self.peek(), Some(c) if c.is_ascii_alphanumeric() || "_-+/".contains(c)) { self.i += 1; }
+                            let tz = txt(self, zs, self.i);
+                            if tz == "UTC" { return DateTime::parse_from_rfc3339(&iso).map(Value::make_datetime); }
+                            return DateTime::parse_from_rfc3339_with_timezone(&iso, &tz).map(Value::make_datetime);
+                        }
+                        return DateTime::parse_from_rfc3339(&iso).map(Value::make_datetime);
+                    }
+                    if !(matches!(self.peek(), Some('+') | Some('-'))) { return Err("offset expected".into()); }
+                    self.i += 1;
+                    if !(self.digits() == 2 && self.eat(':') && self.digits() == 2) { return Err("bad offset".into()); }
+                    let iso = txt(self, st, self.i);
+                    self.expect(' ')?;
+                    let zs = self.i;
+                    while matches!(self.peek(), Some(c) if c.is_ascii_alphanumeric() || "_-+/".contains(c)) { self.i += 1; }
+                    if self.i == zs { return Err("zone name expected".into()); }
+                    let tz = txt(self, zs, self.i);
+                    return DateTime::parse_from_rfc3339_with_timezone(&iso, &tz).map(Value::make_datetime);
+                }
+                return txt(self, st, self.i).parse::<Date>().map(Value::make_date).map_err(|e| format!("{e:?}"));
+            }
+            if dig(self, 0) && dig(self, 1) && self.s.get(st + 2) == Some(&':') {
+                if !(self.digits() == 2 && self.eat(':') && self.digits() == 2 && self.eat(':') && self.digits() == 2) { return Err("bad time".into()); }
+                if self.eat('.') && self.digits() == 0 { return Err("empty fraction".into()); }
+                return txt(self, st, self.i).parse::<Time>().map(Value::make_time).map_err(|e| format!("{e:?}"));
+            }
+            // number: [-] digits(_digits)* [. digits] [e[+-]digits] [unit]
+            self.eat('-');
+            if self.digits() == 0 { return Err(format!("digits expected at {}", self.i)); }
+            loop { if self.peek() == Some('_') && matches!(self.at(1), Some(c) if c.is_ascii_digit()) { self.i += 1; self.digits(); } else { break; } }
+            if self.peek() == Some('.') && matches!(self.at(1), Some(c) if c.is_ascii_digit()) { self.i += 1; self.digits(); }
+            if matches!(self.peek(), Some('e') | Some('E')) && (matches!(self.at(1), Some(c) if c.is_ascii_digit()) || (matches!(self.at(1), Some('+') | Some('-')) && matches!(self.at(2), Some(c) if c.is_ascii_digit()))) {
+                self.i += 2; self.digits();
+            }
+            let num: String = txt(self, st, self.i).replace('_', "");
+            let x: f64 = num.parse().map_err(|_| format!("not a number: {num}"))?;
+            let us = self.i;
+            while matches!(self.peek(), Some(c) if c.is_alphabetic() || c == '%' || c == '$' || c == '/' || c == '_' || (c as u32) > 127) { self.i += 1; }
+            if self.i == us { return Ok(Value::make_number(x)); }
+            let u = txt(self, us, self.i);
+            match libhaystack::units::get_unit(&u) { Some(unit) => Ok(Value::make_number_unit(x, unit)), None => Err(format!("unknown unit {u:?}")) }
+        }
+        pub fn value(&mut self, depth: usize) -> R<Value> {
+            if depth > 64 { return Err("too deep".into()); }
+            match self.peek() {
+                Some('"') => Ok(Value::make_str(&self.quoted('"', false)?)),
+                Some('`') => Ok(Value::make_uri(&self.quoted('`', true)?)),
+                Some('@') => { self.i += 1; let id = self.refchars(); if id.is_empty() { return Err("empty ref".into()); }
+                    if self.peek() == Some(' ') && self.at(1) == Some('"') { self.i += 1; let d = self.quoted('"', false)?; Ok(Value::make_ref_with_dis(&id, &d)) } else { Ok(Value::make_ref(&id)) } }
+                Some('^') => { self.i += 1; let st = self.i; if !matches!(self.peek(), Some(c) if c.is_ascii_lowercase()) { return Err("symbol must start lower case".into()); }
+                    let body = self.refchars(); let _ = st; Ok(Value::make_symbol(&body)) }
+                Some('[') => { self.i += 1; let mut items = vec![]; self.spaces();
+                    if self.eat(']') { return Ok(Value::make_list(items)); }
+                    loop { items.push(self.value(depth + 1)?); self.spaces();
+                        if self.eat(',') { self.spaces(); if self.eat(']') { break; } continue; }
+                        self.expect(']')?; break; }
+                    Ok(Value::make_list(items)) }
+                Some('{') => { self.i += 1; let d = self.tags(depth, '}')?; self.expect('}')?; Ok(Value::make_dict(d)) }
+                Some('<') => { self.expect('<')?; self.expect('<')?; self.spaces(); if !self.nl() { return Err("newline expected after <<".into()); }
+                    let g = self.grid(depth + 1, true)?; self.expect('>')?; self.expect('>')?; Ok(Value::make_grid(g)) }
+                Some(c) if c.is_ascii_digit() => self.number_like(),
+                Some('-') => { if self.at(1) == Some('I') { let w: String = self.s[self.i..(self.i + 4).min(self.s.len())].iter().collect(); if w == "-INF" { self.i += 4; return Ok(Value::make_number(f64::NEG_INFINITY)); } } self.number_like() }
+                Some(c) if c.is_ascii_uppercase() => {
+                    let st = self.i; while matches!(self.peek(), Some(c) if c.is_ascii_alphanumeric() || c == '_') { self.i += 1; }
+                    let w: String = self.s[st..self.i].iter().collect();
+                    if self.peek() == Some('(') {
+                        self.i += 1;
+                        if w == "C" { let lat = self.coord_deg()?; self.expect(',')?; let lng = self.coord_deg()?; self.expect(')')?; return Ok(Value::make_coord_from(lat, lng)); }
+                        let v = self.quoted('"', false)?; self.expect(')')?; return Ok(Value::make_xstr_from(&w, &v));
+                    }
+                    match w.as_str() { "N" => Ok(Value::Null), "M" => Ok(Value::Marker), "R" => Ok(Value::Remove), "NA" => Ok(Value::Na), "T" => Ok(Value::make_true()), "F" => Ok(Value::make_false()),
+                        "NaN" => Ok(Value::make_number(f64::NAN)), "INF" => Ok(Value::make_number(f64::INFINITY)), other => Err(format!("unknown keyword {other}")) }
+                }
+                other => Err(format!("value expected at {}, found {other:?}", self.i)),
+            }
+        }
+        fn coord_deg(&mut self) -> R<f64> { let st = self.i; self.eat('-'); if self.digits() == 0 { return Err("coord digits".into()); } if self.eat('.') && self.digits() == 0 { return Err("coord fraction".into()); }
+            let t: String = self.s[st..self.i].iter().collect(); t.parse().map_err(|_| "coord".to_string()) }
+        /// tags up to `end` (or to the end of the line for grid / column meta when end == '\n')
+        fn tags(&mut self, depth: usize, end: char) -> R<Dict> {
+            let mut d = Dict::new();
+            loop {
+                self.spaces();
+                match self.peek() { Some(c) if c == end => return Ok(d), None => return Ok(d), Some('\r') | Some('\n') if end == '\n' => return Ok(d), Some(',') if end == '\n' => return Ok(d), _ => {} }
+                let k = self.id()?;
+                if self.eat(':') { let v = self.value(depth + 1)?; d.insert(k, v); } else { d.insert(k, Value::Marker); }
+                self.spaces();
+                if end == '}' { self.eat(','); }
+            }
+        }
+        pub fn grid(&mut self, depth: usize, nested: bool) -> R<Grid> {
+            let v = self.id()?; if v != "ver" { return Err("ver expected".into()); }
+            self.expect(':')?; let ver = self.quoted('"', false)?;
+            let meta = self.tags(depth, '\n')?;
+            if !self.nl() { return Err("newline expected after the version line".into()); }
+            let mut cols = vec![];
+            loop { self.spaces(); let name = self.id()?; let m = self.tags(depth, '\n')?; cols.push(Column { name, meta: if m.is_empty() { None } else { Some(m) } });
+                self.spaces(); if self.eat(',') { continue; } break; }
+            if !self.nl() { return Err(format!("newline expected after the column line at {}", self.i)); }
+            let mut rows = vec![];
+            loop {
+                // end of grid: end of input, a blank line, or >> of a nested grid
+                if self.peek().is_none() { break; }
+                if nested && self.peek() == Some('>') && self.at(1) == Some('>') { break; }
+                if self.peek() == Some('\n') || self.peek() == Some('\r') { self.nl(); if nested { continue; } else { break; } }
+                let mut row = Dict::new(); let mut c = 0;
+                loop {
+                    self.spaces();
+                    if !matches!(self.peek(), Some(',') | Some('\n') | Some('\r') | None) { if c >= cols.len() { return Err("more cells than columns".into()); } let v = self.value(depth + 1)?; row.insert(cols[c].name.clone(), v); self.spaces(); }
+                    if self.eat(',') { c += 1; continue; }
+                    break;
+                }
+                if !self.nl() && self.peek().is_some() { return Err(format!("newline expected after a row at {}", self.i)); }
+                rows.push(row);
+            }
+            let is_empty_marker = cols.len() == 1 && cols[0].name == "empty" && cols[0].meta.is_none() && rows.is_empty();
+            let _ = is_empty_marker;
+            Ok(Grid { meta: if meta.is_empty() { None } else { Some(meta) }, columns: cols, rows, ver })
+        }
+    }
+    pub fn parse(text: &str) -> Result<Value, String> {
+        let cs: Vec<char> = text.chars().collect();
+        let mut p = P { s: &cs, i: 0 };
+        let v = if text.starts_with("ver:") { Value::make_grid(p.grid(0, false)?) } else { p.value(0)? };
+        while matches!(p.peek(), Some('\n') | Some('\r') | Some(' ')) { p.i += 1; }
+        if p.i != cs.len() { return Err(format!("text after the value at {}: {:?}", p.i, cs[p.i..].iter().take(12).collect::<String>())); }
+        Ok(v)
+    }
+}
+
 fn main() {
     let args: Vec<String> = std::env::args().collect();
     let fam = args.get(1).map(|s| s.as_str()).unwrap_or("");
@@ -893,6 +1091,32 @@ fn main() {
                 }
             }
             println!("RESULT enum:dis {n} display names and macro substitutions agree with the precedence order and the macro rules");
+        }
+        // ---- C04 / C01 enumerator: the Zinc text the writer emits is read by an independent reader written from the grammar, and denotes the value
+        "enum:zinc-reference" => {
+            use libhaystack::encoding::zinc::encode::ToZinc;
+            let mut vals = composite_samples(); vals.pop();
+            for a in ["", "a", "\u{e9}", "a\"b", "\\", "$", "\t\r\n", "\u{1}", "\u{1F600}", " x ", "a`b"] {
+                vals.push(Value::make_str(a)); vals.push(Value::make_ref_with_dis("r", a)); vals.push(Value::make_xstr_from("Bin", a)); }
+            for a in ["a", "a.b:c-d~e_f", "x1"] { vals.push(Value::make_ref(a)); vals.push(Value::make_symbol(a)); }
+            for a in ["/a/b", "http://x/\u{e9}?q=1#f", "a`b", "a\u{1F600}", "a\\b", "a\\:b\\`c", "[x]@y&z=1;2"] { vals.push(Value::make_uri(a)); }
+            let kg = libhaystack::units::get_unit_or_default("kg");
+            for x in [0.0f64, -0.0, 1.0, -1.5, 1e-7, 5e-324, 1e21, 123456789012345680000.0, 1.7976931348623157e308, f64::NAN, f64::INFINITY, f64::NEG_INFINITY] {
+                vals.push(Value::make_number(x)); if x.is_finite() { vals.push(Value::make_number_unit(x, kg)); }
+                if x.is_finite() && x.abs() <= 90.0 { vals.push(Value::make_coord_from(x, -x)); } }
+            for v in [Value::Marker, Value::Remove, Value::Na, Value::Null, Value::make_true(), Value::make_false()] { vals.push(v); }
+            let mut n = 0;
+            for v in &vals {
+                let text = match v.to_zinc_string() { Ok(t) => t, Err(e) => { println!("RESULT enum:zinc-reference value={v:?} cannot be encoded: {e}"); std::process::exit(3); } };
+                let back = refzinc::parse(&text);
+                n += 1;
+                let same = matches!(&back, Ok(b) if format!("{:?}", norm(b)) == format!("{:?}", norm(v)));
+                if !same {
+                    println!("RESULT enum:zinc-reference value={v:?} is written as {text:?}, which the reference reader (written from the grammar) reads as {back:?}");
+                    std::process::exit(3);
+                }
+            }
+            println!("RESULT enum:zinc-reference {n} values: the text written is a sentence of the grammar that denotes the value");
         }
         // ---- C09 enumerator (evaluation half): `id *== @ref` over resolvers whose refs form chains and cycles of several shapes must
         //      terminate with the right answer; a run that does not come back is reported as a hang by the caller's watchdog
